@@ -168,6 +168,70 @@ pub fn set_env() {
     std::env::remove_var("U");
 }
 
+/// child: relative paths (the reference can sit at the very start of the string), cwd = a fresh sandbox.
+/// args = part, nparts, maxlen
+pub fn child_rel(args: &[String]) -> i32 {
+    set_env();
+    let part: u64 = args[0].parse().unwrap();
+    let nparts: u64 = args[1].parse().unwrap();
+    let maxlen: usize = args[2].parse().unwrap();
+    let sb = Sandbox::new();
+    std::env::set_current_dir(&sb.dir).unwrap();
+    let mut n = 0u64;
+    let mut found: std::collections::BTreeMap<String, (String, String, u64)> = Default::default();
+    for len in 1..=maxlen {
+        let total = (TOKENS.len() as u64).pow(len as u32);
+        let mut i = part;
+        while i < total {
+            let p = nth_seq(i, len);
+            i += nparts;
+            // never leave the sandbox: absolute paths are out of this child's domain
+            if p.starts_with('/') {
+                continue;
+            }
+            let want = expand_ref(&p);
+            n += 1;
+            let r = catch_panic(|| FileAppender::builder().build(&p).map(|_| ()).map_err(|e| e.to_string()));
+            let verdict = match r {
+                Err(pn) => Some((format!("panic:RelativeFile:{}", panic_site(&pn)), format!("relative path {:?}: {}", p, pn))),
+                Ok(res) => {
+                    if !usable_rel_path(&want) {
+                        None
+                    } else {
+                        let got = files_of(&sb);
+                        match res {
+                            Err(e) => Some(("RelativeFile:build-failed".to_string(), format!("relative path {:?} should create {:?} but build failed: {}", p, want, e))),
+                            Ok(()) if got != vec![want.clone()] => Some(("RelativeFile:wrong-location".to_string(), format!("relative path {:?}: created {:?}, expected exactly {:?}", p, got, want))),
+                            Ok(()) => None,
+                        }
+                    }
+                }
+            };
+            if let Some((sig, detail)) = verdict {
+                let e = found.entry(sig).or_insert((p.clone(), detail, 0));
+                e.2 += 1;
+            }
+            // empty the sandbox again
+            if let Ok(rd) = std::fs::read_dir(&sb.dir) {
+                for e in rd.flatten() {
+                    let path = e.path();
+                    if path.is_dir() {
+                        let _ = std::fs::remove_dir_all(&path);
+                    } else {
+                        let _ = std::fs::remove_file(&path);
+                    }
+                }
+            }
+        }
+    }
+    for (sig, (p, detail, count)) in found {
+        println!("{}", json!({"kind": "violation", "sig": sig, "detail": detail, "case": {"path": p, "via": "RelativeFile"}, "count": count}));
+    }
+    println!("{}", json!({"kind": "stat", "paths": n}));
+    let _ = std::env::set_current_dir("/");
+    0
+}
+
 pub fn run(ctx: &Ctx) -> Report {
     set_env();
     let mut rep = Report::new("model_checking");
@@ -228,6 +292,33 @@ pub fn run(ctx: &Ctx) -> Report {
             capped = true;
         }
     }
+    // relative paths in child processes (cwd is process-global)
+    let rel_len = ctx.tier.pick(4usize, 5usize);
+    let outs: Vec<_> = (0..16u64)
+        .into_par_iter()
+        .map(|part| crate::engine::proc::run_child(&ctx.exe, "c19rel", &[part.to_string(), "16".into(), rel_len.to_string()], &[], ctx.cap))
+        .collect();
+    for o in outs {
+        let mut ok = false;
+        for v in o.json_lines() {
+            if v["kind"] == "stat" {
+                ok = true;
+                rep.add("evaluations", v["paths"].as_u64().unwrap_or(0));
+                rep.add("relative_paths", v["paths"].as_u64().unwrap_or(0));
+            }
+            if v["kind"] == "violation" {
+                rep.violation(v["sig"].as_str().unwrap_or("?"), v["detail"].as_str().unwrap_or(""), v["case"].clone());
+            }
+        }
+        if !ok {
+            if o.timed_out {
+                capped = true;
+            } else {
+                eprintln!("MACHINERY FAILURE: relative-path child failed: {}", String::from_utf8_lossy(&o.stderr));
+                std::process::exit(2);
+            }
+        }
+    }
     rep.set("token_sequences", total);
     rep.set("max_tokens", maxlen as u64);
     rep.set("exhaustive", !capped);
@@ -241,6 +332,19 @@ pub fn run(ctx: &Ctx) -> Report {
 pub fn replay(case: &Value) -> Result<(), String> {
     set_env();
     let p = case["path"].as_str().ok_or("bad case")?;
+    if case["via"].as_str() == Some("RelativeFile") {
+        let exe = std::env::current_exe().map_err(|e| e.to_string())?;
+        let len = p.chars().count().max(1).min(5);
+        for part in 0..16u64 {
+            let o = crate::engine::proc::run_child(&exe, "c19rel", &[part.to_string(), "16".into(), len.to_string()], &[], std::time::Duration::from_secs(300));
+            for v in o.json_lines() {
+                if v["kind"] == "violation" {
+                    return Err(format!("{}: {}", v["sig"].as_str().unwrap_or(""), v["detail"].as_str().unwrap_or("")));
+                }
+            }
+        }
+        return Ok(());
+    }
     let via = match case["via"].as_str() {
         Some("Rolling") => Via::Rolling,
         Some("Roller") => Via::Roller,
